@@ -18,8 +18,9 @@ import (
 
 func init() {
 	// every ReadStream* call of slip allocates a 64 KiB block buffer; with the default GC target that is one
-	// collection of slip's large live heap per ~60 reads (measured: 22 ms/case vs 2 ms/case with this setting)
-	debug.SetGCPercent(1200)
+	// collection (scanning slip's ~70 MB of global tables as roots) per ~60 reads: measured 22 ms/case against
+	// 2-3 ms/case with this setting, which lets the heap of a worker grow to about 300 MB
+	debug.SetGCPercent(400)
 	engine.Register(&engine.Prop{
 		ID:    "C02",
 		Level: "exploration",
